@@ -54,6 +54,8 @@ ANGLES = {
     "optimisation": "performance-motivated rewrites. Look for loops replaced by vectorised numpy/pandas expressions, dictionaries or sets replacing ordered lists, values computed once and reused where they should be recomputed, work skipped when 'nothing changed', in-place updates replacing fresh objects, lower-precision dtypes, and incremental updates replacing recomputation from scratch - rewrites that give identical results on typical data but drift, reorder, go stale or lose precision under a particular data pattern or call sequence.",
 }
 
+ANGLES["lifecycle"] = "less common public entry points and object life cycle. Look at the public ways of doing the same thing that ordinary examples do not use - TradingEnv.backtest() with a policy instead of a reset/step loop, reset(fold=..., episode_length=...), env.notify() called by the user, Broker / Exchange / Transmitter methods called directly between steps, TrackRecord.save / load, copy.copy / copy.deepcopy / pickle of environments, brokers, spaces, contracts and chains, subclasses that override a public method, objects constructed once and reused for several environments - and find a change that keeps the ordinary reset/step path identical but is wrong for one of these."
+
 ALSO = {
     "C09": "Also already known on the unchanged code (not what you are asked for): TradingEnv.step lets EndOfEpisodeError escape from the reward computation when the account is insolvent at the end of a step; a decision whose own trading costs push NLV <= 0 raises from Broker.rebalance after trading.",
     "C10": "Also already known on the unchanged code (not what you are asked for): environments built without `state` share the default IState() instance; building a portfolio space over a FutureChain while AbstractContract.now is outside the chain's span raises IndexError.",
